@@ -18,11 +18,37 @@ def load_prop(pid):
     return importlib.import_module("props." + pid.lower())
 
 
+_WORKER = {}
+
+
+def worker_impl(pid, case):
+    """run prop.impl(case) in a separate process that has the stand-in `cplex` module on its path"""
+    import subprocess
+    w = _WORKER.get(pid)
+    if w is None or w.poll() is not None:
+        env = dict(os.environ)
+        env["VERIF_CPLEX"] = "standin"
+        w = subprocess.Popen([sys.executable, os.path.join(lib.VERIF, "harness", "worker.py"), pid],
+                             stdin=subprocess.PIPE, stdout=subprocess.PIPE, env=env, text=True, bufsize=1)
+        _WORKER[pid] = w
+    w.stdin.write(json.dumps(case) + "\n")
+    w.stdin.flush()
+    while True:
+        line = w.stdout.readline()
+        if not line:
+            raise RuntimeError("stand-in worker died")
+        if line.startswith("@@OUT@@"):
+            return json.loads(line[len("@@OUT@@"):])
+
+
 def evaluate(prop, cases):
     """impl -> driver -> judge for a list of cases. Returns list of verdict dicts (same order)."""
     outs = []
     for case in cases:
-        outs.append(prop.impl(case))
+        if case.get("cplex") == "standin" and lib.CPLEX_MODE != "standin":
+            outs.append(worker_impl(prop.ID, case))
+        else:
+            outs.append(prop.impl(case))
     lines = []
     spans = []
     for case, out in zip(cases, outs):
